@@ -373,7 +373,7 @@ func main() {
 		"fired_per_method":                    tl.perMethod,
 		"distinct_outcomes":                   len(tl.outcomes),
 		"outcomes":                            tl.outcomes,
-		"programs":                            sizes,
+		"program_sizes":                       sizes,
 		"slowest_run_ms":                      tl.maxMs,
 		"rule":                                rule,
 	})
